@@ -756,6 +756,108 @@ def part_params(ctx, cs):
             ctx.fail("dft2 differs from sum_p x[p] exp(-2 pi i (k r_p + l c_p))", d, {"op": "dft2", "kind": "irregular"})
         cs.evals += 1
         cs.count("dft2_irregular")
+    # string-valued options: convolve(mode=...) and _freq_filter / _freq_vector(typ=...), incl. strings that are
+    # not options (convolve then returns None, the filters raise) — through the model's mode_class / typ_class
+    raw = f._mod                      # unguarded: returning None is the behaviour under test here
+    for mode in ("full", "same", "valid", "FULL", "Same", "", "full "):
+        for (nsx, nsw) in ((3, 2), (13, 14), (1, 1)):
+            x, w = rand_ints(rng, nsx), rand_ints(rng, nsw)
+            d = {"op": "convolve-mode", "x": x.tolist(), "w": w.tolist(), "mode": mode}
+            try:
+                c = raw.convolve(x.astype(float), w.astype(float), mode=mode)
+                if c is None:
+                    out = [2]
+                else:
+                    r, ok = near_int(np.asarray(c), max(1.0, float(np.abs(x).sum() * np.abs(w).max())))
+                    if not ok or r.ndim != 1:
+                        ctx.fail("convolve(mode=%r) is not integer-valued on integer input" % mode, d, {"op": "convolve", "kind": "mode"})
+                        continue
+                    out = [1, len(r)] + r.tolist()
+            except Exception:
+                out = [0]
+            if mode in ("full", "same") and out[0] != 1:
+                ctx.fail("convolve(mode=%r) did not return an array" % mode, d, {"op": "convolve", "kind": "mode"})
+            cs.add([12, nsx, nsw, len(mode)] + [ord(ch) for ch in mode] + x.tolist() + w.tolist(), out, d)
+            cs.add([11, 1] + [ord(ch) for ch in mode], [{"full": 0, "same": 1}.get(mode, 2)], d)
+            cs.evals += 1
+            cs.count("convolve_mode_" + ("option" if mode in ("full", "same") else "other"))
+    for typ in ("lp", "hp", "bp", "lowpass", "highpass", "LP", "Hp", "HighPass", "LOWPASS", "lOwPaSs", "BP", "Bp",
+                "bandpass", "foo", "", "hp ", "l p", "hpp"):
+        for ns in (1, 2, 9, 16):
+            si, bf = 1.0, [0.1, 0.3, 0.2, 0.45]
+            imp = np.zeros(ns)
+            imp[0] = 1.0
+            d = {"op": "filter-typ", "typ": typ, "ns": ns, "b": bf}
+            tb1 = textbook_response(ns, si, bf[0], bf[1])
+            cand = {0: tb1, 1: 1.0 - tb1, 2: tb1 * (1.0 - textbook_response(ns, si, bf[2], bf[3]))}
+            try:
+                h = raw._freq_filter(imp.copy(), si, bf if typ == "bp" else bf[0:2], typ=typ)
+                H = np.fft.fft(np.asarray(h)) if h is not None and np.shape(h) == (ns,) else None
+                code = next((k for k in (2, 0, 1) if H is not None and np.max(np.abs(H - cand[k])) <= 1e-9
+                             and (k == 2) == (typ == "bp")), None)
+                if code is None and H is not None:
+                    code = next((k for k in (0, 1, 2) if np.max(np.abs(H - cand[k])) <= 1e-9), -1)
+            except Exception:
+                code = 3
+            if code in (None, -1):
+                ctx.disagree("_freq_filter(typ=%r) returned something that is neither the hp, lp nor bp response" % typ, d)
+                continue
+            if ns >= 9:                 # for ns <= 2 several responses coincide
+                cs.add([11, 0] + [ord(ch) for ch in typ], [code], d)
+            want = {"lp": 1, "hp": 0, "bp": 2}.get(typ)
+            if want is not None and code != want and ns >= 9:
+                ctx.fail("_freq_filter(typ=%r) does not apply the %s response" % (typ, typ), d, {"op": "filter", "kind": "typ"})
+            cs.evals += 1
+            cs.count("filter_typ_" + ("option" if code != 3 else "rejected"))
+    fv = np.arange(6) / 10.0
+    for typ, exp in (("hp", 0), ("highpass", 0), ("HP", 0), ("lp", 1), ("LowPass", 1), ("bp", None), ("x", None)):
+        try:
+            v = raw._freq_vector(fv, [0.1, 0.3], typ=typ)
+        except Exception as e:
+            ctx.fail("_freq_vector(typ=%r) raised %r" % (typ, e), {"op": "freq_vector", "typ": typ}, {"op": "filter", "kind": "freq_vector"})
+            continue
+        tbv = (1 - np.cos(np.pi * np.clip((fv - 0.1) / 0.2, 0, 1))) / 2
+        okv = (v is None) if exp is None else (v is not None and np.max(np.abs(np.asarray(v) - (tbv if exp == 0 else 1 - tbv))) < 1e-12)
+        if not okv:
+            (ctx.disagree if exp is None else ctx.fail)("_freq_vector(typ=%r) is not the %s" % (typ, "documented None" if exp is None else "taper"),
+                                                        {"op": "freq_vector", "typ": typ}, {"op": "filter", "kind": "freq_vector"})
+        cs.evals += 1
+    # gpu=True branches of convolve / fcn_cosine with a NumPy stand-in registered as `cupy` for the duration of
+    # these calls only (cupy is not installed): same array API, so the result must equal the gpu=False result
+    import sys as _sys
+    import types as _types
+    had = _sys.modules.get("cupy")
+    if had is None:
+        stub = _types.ModuleType("cupy")
+        for nm in ("concatenate", "zeros", "real", "floor", "ceil", "cos", "pi", "fft"):
+            setattr(stub, nm, getattr(np, nm))
+        _sys.modules["cupy"] = stub
+        try:
+            for (nsx, nsw) in ((5, 4), (13, 14), (7, 1)):
+                x, w = rand_ints(rng, nsx).astype(float), rand_ints(rng, nsw).astype(float)
+                d = {"op": "convolve-gpu-standin", "x": x.tolist(), "w": w.tolist()}
+                for mode in ("full", "same"):
+                    try:
+                        a, b_ = np.asarray(f.convolve(x, w, mode=mode, gpu=True)), np.asarray(f.convolve(x, w, mode=mode))
+                        if a.shape != b_.shape or np.max(np.abs(a - b_)) > 0:
+                            ctx.fail("convolve(gpu=True) with a NumPy stand-in for cupy differs from gpu=False", d,
+                                     {"op": "convolve", "kind": "gpu-standin"})
+                    except Exception as e:
+                        ctx.fail("convolve(gpu=True) with a NumPy stand-in raised %r" % (e,), d, {"op": "convolve", "kind": "gpu-standin"})
+                    cs.evals += 1
+            xs = np.linspace(-1, 6, 29)
+            try:
+                a, b_ = np.asarray(U().fcn_cosine([0, 4], gpu=True)(xs.copy())), np.asarray(U().fcn_cosine([0, 4])(xs.copy()))
+                if a.shape != b_.shape or np.max(np.abs(a - b_)) > 0:
+                    ctx.fail("fcn_cosine(gpu=True) with a NumPy stand-in for cupy differs from gpu=False",
+                             {"op": "fcn_cosine", "bounds": [0, 4], "x": xs.tolist()}, {"op": "fcn_cosine", "kind": "gpu-standin"})
+            except Exception as e:
+                ctx.fail("fcn_cosine(gpu=True) with a NumPy stand-in raised %r" % (e,),
+                         {"op": "fcn_cosine", "bounds": [0, 4], "x": xs.tolist()}, {"op": "fcn_cosine", "kind": "gpu-standin"})
+            cs.evals += 1
+            cs.count("gpu_standin_calls", 7)
+        finally:
+            del _sys.modules["cupy"]
     # fexpand with its default ns (=1): nothing is mirrored
     for n in (1, 2, 5):
         H = gauss(rng, (n,))
